@@ -8,7 +8,7 @@ from . import lazycommon as lc
 class C13(Prop):
     id = "C13"
     contract_modules = ["lazylist"]
-    trusted_base = ["CPython semantics of the subset (DESIGN 2.2)", "z3 5.1 / cvc5 1.0.3 (unsat answers)", "vyxalify is the identity on Vyxal values", "generator protocol: a consumer does not mutate the lazy list between two resumptions of __iter__"]
+    trusted_base = ["CPython semantics of the subset (DESIGN 2.2)", "z3 5.1 / cvc5 1.0.3 (unsat answers)", "vyxalify is the identity on Vyxal values", "generator protocol: the pull-count clauses of __iter__ assume that a consumer does not touch the lazy list between two resumptions; that it yields every item once and in order is also proved WITHOUT that assumption (contract __iter__#interleaved: other references may pull in between)"]
     paper_steps = ["history quantifier: every method is proved from an arbitrary state satisfying the representation invariant generated == src[:k] and re-establishes it with src unchanged, so no sequence of observations can change a later observation's result"]
 
     def wants(self, name):
